@@ -69,7 +69,7 @@ Restart ==
   /\ hookReg' = 2               \* lastWebhookSavedAsExtra: not the live value (allowed to differ)
   /\ nrestarts' = nrestarts + 1
   /\ hist' = Append(hist, [op |-> "restart", kind |-> "restart", choice |-> -1])
-  /\ UNCHANGED <<core, plan, exps, batch, refreshes>>
+  /\ UNCHANGED <<core, plan, exps, segs, batch, refreshes>>
 
 PNext ==
   \/ \E t \in TrigKinds, f \in Flows : PStart(t, f)
